@@ -1266,6 +1266,33 @@ class Interp:
 
     def e_For(self, e, env, **kw):
         src = self.expr(e['expr'], env)
+        return self.for_over(e, src, env)
+
+    def for_over(self, e, src, env):
+        # the iterated value is a choice of lists (`for b in nested_blocks(stmt)` with a helper that matches on the statement): the loop runs
+        # over the list of the arm that applies
+        if src[0] == 'alt' and src[1] and all(v[0] in ('tuple', 'star', 'alt', 'reorder', 'diverge') or (v[0] == 'new' and v[1] == 'Vec') for _, v in src[1]):
+            prior = []
+            for c, v in src[1]:
+                full = c if not prior else ('and', [self.neg(p) for p in prior] + [c])
+                prior.append(c)
+                if v[0] == 'diverge' or (v[0] == 'tuple' and not v[1]) or v[0] == 'new':
+                    continue
+                self.frame['conds'].append(full)
+                try:
+                    self.for_over(e, v, env)
+                finally:
+                    self.frame['conds'].pop()
+            return ('tuple', [])
+        # a literal list (`for b in [accept, reject]`): the body runs once per element, no loop frame needed
+        if src[0] == 'tuple' and 0 < len(src[1]) <= 8 and not self.assigned_in(e['body'], env):
+            for el in src[1]:
+                env2 = env.child()
+                self.bind(e['pat'], el, env2)
+                n0 = len(self.frame['conds'])
+                self.block_in(e['body'], env2)
+                del self.frame['conds'][n0:]
+            return ('tuple', [])
         eid = self.fresh('e')
         src, body0, conds = self.as_pipeline(src, eid)
         env2 = env.child()
@@ -1289,6 +1316,11 @@ class Interp:
             if step is not None and step != ('accvar', eid, n):
                 env.assign(n, ('fold', src, eid, list(conds), before[n], ('accvar', eid, n), step))
         return ('tuple', [])
+
+    def assigned_in(self, body, env):
+        names = set()
+        self.assigned_locals(body, names)
+        return {n for n in names if n in env}
 
     def block_in(self, b, env):
         """execute a block in the given scope (no new child scope), so that the loop machinery can read the updated locals"""
